@@ -1,6 +1,6 @@
 (* C16 — no hidden reallocation: addresses are stable until capacity is exceeded. *)
 From Coq Require Import ZArith List Bool.
-From Cntgs Require Import Base Layout Mem Vector World Spec Rep StableThm Refine.
+From Cntgs Require Import Base Layout Mem Vector World Spec Rep StableThm Refine NtLedger.
 Import ListNotations.
 Local Open Scope Z_scope.
 
@@ -63,3 +63,15 @@ Theorem C16_swap_exchanges_blocks : forall K a b,
   v_cap (fst (swap_vec K a b)) = v_cap b /\ v_cap (snd (swap_vec K a b)) = v_cap a.
 Proof. exact swap_exchanges_blocks. Qed.
 Print Assumptions C16_swap_exchanges_blocks.
+
+(* erase and erase(first, last) never call the allocator and keep the block - for EVERY list,
+   the element-by-element re-emplacement of non-trivial lists included *)
+Theorem C16_erase_no_allocation_every_list : forall L v i,
+  no_alloc (snd (erase L v i)) /\ v_bid (fst (erase L v i)) = v_bid v.
+Proof. exact erase_no_alloc_nt. Qed.
+Print Assumptions C16_erase_no_allocation_every_list.
+
+Theorem C16_erase_range_no_allocation_every_list : forall L v i j,
+  no_alloc (snd (erase_range L v i j)) /\ v_bid (fst (erase_range L v i j)) = v_bid v.
+Proof. exact erase_range_no_alloc_nt. Qed.
+Print Assumptions C16_erase_range_no_allocation_every_list.
